@@ -648,6 +648,21 @@ def ag_once(ctx):
                 elif v != 1:
                     bad.append(f'{v} final result codes on a normal path ({" ".join(w)})')
         R.check(not bad, rule, f'{AG}.{name}', 'exactly one final result code on every normal path; value conversions happen before it', 'an AT command is concluded by no or by several final result codes', p.loc(m), bad[:3])
+    # the helpers that stand for "one final result code" really send exactly one line on every path
+    for hname in ('send_ok', 'send_error', 'send_cme_error'):
+        hm = ag.methods.get(hname)
+        if hm is None:
+            R.bad(rule, f'{AG}.{hname}', 'anchor missing')
+            continue
+
+        class L(paths.Domain):
+            def event(self, node, v):
+                if isinstance(node, ast.Call) and dotted(node.func) in ('self.send_response', 'self.send_ok', 'self.send_error'):
+                    return (min(v + 1, 2),)
+                return (v,)
+        res_h = paths.run(hm, L(), 0)
+        badh = [f'{v} lines ({" ".join(w)})' for k, st in res_h.items() if not k.startswith('raise') for v, w in st.items() if v != 1]
+        R.check(not badh, rule, f'{AG}.{hname} | one line', 'sends exactly one result line on every path', f'{hname} sends {badh}: a command concluded through it gets no or two final result codes', p.loc(hm))
     R.check(len(handlers) >= 24, rule, f'{AG} | handlers', f'{len(handlers)} AT handlers analysed', f'only {len(handlers)} handlers found')
     # ---- reader
     if rd is None:
